@@ -106,7 +106,9 @@ LEVEL_TEXT = ("Lean theorem pipeline_conserves: for ANY pipeline of slice-conser
               "(decide +kernel, re-run on every check). specKept states the documented rules; real exports are compared with it.")
 LEVEL_NOTE = ("Trusted: Lean kernel + standard axioms, translator, uid injection. Modelled-not-verified: that each real stage obeys its "
               "class contract — checked on every real -I run of the check (all stages, real streams), a violation there is reported with "
-              "the stage name.")
+              "the stage name; for sort_events, pipeline_barrier, the overlap stages, queueing_counter, normalize_phase1, "
+              "communication_event_apply, mp_calc_bw, map_tid_to_range, recombine_cpu_events, drop_global_events and processing_filter the "
+              "contract is a theorem over a model that is compared with the real callback + registered context.")
 TECHNIQUE = "Lean 4 proof (permutation invariant through the engine equation) over source-generated sites + correspondence run"
 
 PREP_RE = re.compile(r"Cmpt Prep$")
